@@ -1,1 +1,7 @@
-//! shared helpers for the checks in this crate
+//! shared helpers for the checks in this crate (C17): the entry points and their seeds
+//! (`entries`, `seeds`), the mutation family (`mutate`, `json`).
+
+pub mod entries;
+pub mod json;
+pub mod mutate;
+pub mod seeds;
